@@ -49,11 +49,17 @@ func (c *zzPointCtrl) Watch(src source.TypedSource[reconcile.Request]) error {
 	return c.zzCtrl.Watch(src)
 }
 
+// ActiveInformers is a scheduling point twice: before the snapshot is taken
+// and after it (the caller then goes on with a snapshot that may be stale).
 func (p *zzPoints) ActiveInformers() []schema.GroupVersionKind {
 	if p.point != nil {
 		p.point()
 	}
-	return p.zzInformers.ActiveInformers()
+	a := p.zzInformers.ActiveInformers()
+	if p.point != nil {
+		p.point()
+	}
+	return a
 }
 
 // HarnessC13Preempt: two actors on one engine. The first performs one engine
